@@ -456,3 +456,227 @@ Proof.
   destruct r2 as [[[[st2 b] pd] pp]|]; [|discriminate].
   inversion H; subst. eapply F2; reflexivity.
 Qed.
+
+(* ---------------------------------------------------------------- override vs VRF *)
+(* Decision (notes/C01.md, "override"): a pool override is an explicit instruction (AAA attribute or
+   service group) naming a pool OF THE SAME PROFILE; upstream pins "pool override bypasses VRF check"
+   for all three families (registry_test.go).  The override is therefore exempt from the VRF filter
+   and from the priority order, and from nothing else. *)
+
+(* every answer that is not the override pool comes from a pool of the subscriber's VRF that is in the
+   profile's list *)
+Lemma alloc_non_override_vrf st f pf ov vrf s k o st' r :
+  RInv st -> reg_step Repaired st (RAlloc f pf ov vrf s (Some (k, o))) = Some (st', r) ->
+  (ov = 0 \/ k <> (pf, ov)) ->
+  vrf_of Repaired st f k = vrf /\ In k (pools_of st f pf).
+Proof.
+  intros F H N. destruct (alloc_answer _ _ _ _ _ _ _ _ _ _ F H) as [_ [_ [[Ho Hk]|[l1 [l2 [E [V _]]]]]]].
+  - destruct N as [N|N]; contradiction.
+  - split; [exact V|]. rewrite E. apply in_or_app. right. left. reflexivity.
+Qed.
+
+(* the override pool is used whenever it exists and has something free, whatever its VRF, and it is
+   always a pool of the named profile *)
+Lemma alloc_override_scope st f pf ov vrf :
+  ov <> 0 -> has_free st f (pf, ov) = true -> alloc_target Repaired st f pf ov vrf = Some (pf, ov).
+Proof.
+  intros N H. unfold alloc_target. rewrite H. apply N.eqb_neq in N. rewrite N. reflexivity.
+Qed.
+
+(* answers never leave the named profile: the lists only hold keys of their own profile *)
+Definition LInv (st : rstate) : Prop :=
+  forall f pf l, assoc_find N.eqb pf (r_lists st f) = Some l -> forall k, In k l -> fst k = pf.
+
+Lemma assoc_find_set_N {B} k k' (x : B) l :
+  assoc_find N.eqb k (assoc_set N.eqb k' x l) = if N.eqb k k' then Some x else assoc_find N.eqb k l.
+Proof.
+  destruct (N.eqb_spec k k') as [->|Ne].
+  - apply assoc_find_set_same. apply N.eqb_refl.
+  - apply assoc_find_set_other; [apply N.eqb_eq | exact Ne].
+Qed.
+
+Lemma linv_init_profile v st pf : LInv st -> LInv (init_profile v st pf).
+Proof.
+  intros L f p l H k Hk. unfold init_profile in H. rewrite fold_init_pool_lists, lists_set in H.
+  destruct (rfam_eqb (rf_fam pf) f) eqn:Ef; [|eapply L; eauto].
+  rewrite assoc_find_set_N in H. destruct (N.eqb_spec p (rf_name pf)) as [->|Ne].
+  - inversion H; subst l. apply in_map_iff in Hk. destruct Hk as [q [<- _]]. reflexivity.
+  - apply rfam_eqb_eq in Ef; subst f. eapply L; eauto.
+Qed.
+
+Lemma linv_init v pfs : LInv (reg_init v pfs).
+Proof.
+  unfold reg_init. assert (G : forall l st, LInv st -> LInv (fold_left (init_profile v) l st)).
+  { induction l as [|p r IH]; simpl; intros st F; [exact F|]. apply IH, linv_init_profile, F. }
+  apply G. intros f pf l H. destruct f; discriminate.
+Qed.
+
+Lemma lists_on_pool v st f k mk st' o g : on_pool v st f k mk = Some (st', o) -> r_lists st' g = r_lists st g.
+Proof.
+  unfold on_pool. intros H.
+  destruct (assoc_find key_eqb k (r_allocs st f)) as [[ac ps]|]; [|discriminate].
+  destruct (mk ac); [|discriminate].
+  destruct (pool_step v (acfg_pool ac) ps c) as [[ps' o']|]; [|discriminate].
+  inversion H; subst. apply lists_set_allocs.
+Qed.
+
+Lemma lists_walk v st f x obs mk st' o g : walk v st f x obs mk = Some (st', o) -> r_lists st' g = r_lists st g.
+Proof.
+  unfold walk. intros H. destruct obs as [k|].
+  - destruct (assoc_find key_eqb k (r_allocs st f)) as [[ac ps]|]; [|discriminate].
+    destruct (acontains v ac x); [|discriminate].
+    destruct (on_pool v st f k mk) as [[st1 o1]|] eqn:E; [|discriminate].
+    inversion H; subst. eapply lists_on_pool; eauto.
+  - destruct (existsb _ _); inversion H; subst; reflexivity.
+Qed.
+
+Lemma lists_step v st k st' o g : reg_step v st k = Some (st', o) -> r_lists st' g = r_lists st g.
+Proof.
+  intros H.
+  destruct k as [f pf ov vrf s obs | f k x | f k x s obs | f x s obs | f k x obs | f x obs | b | f k | f pf].
+  - cbn [reg_step] in H.
+    destruct (alloc_target v st f pf ov vrf) as [t|]; destruct obs as [[k' a]|]; try discriminate.
+    + destruct (key_eqb t k'); [|discriminate].
+      destruct (on_pool v st f t (mk_alloc v s a)) as [[st1 o1]|] eqn:E; [|discriminate].
+      inversion H; subst. eapply lists_on_pool; eauto.
+    + inversion H; subst; reflexivity.
+  - cbn [reg_step] in H.
+    destruct (on_pool v st f k (mk_release v x)) as [[st1 o1]|] eqn:E; inversion H; subst; [|reflexivity].
+    eapply lists_on_pool; eauto.
+  - cbn [reg_step] in H. destruct (assoc_find key_eqb k (r_allocs st f)).
+    + destruct (on_pool v st f k (mk_reserve v x s)) as [[st1 o1]|] eqn:E; [|discriminate].
+      inversion H; subst. eapply lists_on_pool; eauto.
+    + eapply lists_walk; eauto.
+  - cbn [reg_step] in H. eapply lists_walk; eauto.
+  - cbn [reg_step] in H. destruct (assoc_find key_eqb k (r_allocs st f)).
+    + destruct (on_pool v st f k (mk_release v x)) as [[st1 o1]|] eqn:E; [|discriminate].
+      inversion H; subst. eapply lists_on_pool; eauto.
+    + eapply lists_walk; eauto.
+  - destruct f.
+    + change (Some (map_pools v st F4 (mk_release v x), ROOk) = Some (st', o)) in H.
+      apply some_pair_inj in H. destruct H as [<- _]. apply lists_set_allocs.
+    + change (Some (map_pools v st FNA (mk_release v x), ROOk) = Some (st', o)) in H.
+      apply some_pair_inj in H. destruct H as [<- _]. apply lists_set_allocs.
+    + change (walk v st FPD x obs (mk_release v x) = Some (st', o)) in H. eapply lists_walk; eauto.
+  - change (Some (map_pools v (map_pools v (map_pools v st F4 (fun _ => Some (CSetDir b)))
+                                           FNA (fun _ => Some (CSetDir b)))
+                      FPD (fun _ => Some (CSetDir b)), ROOk) = Some (st', o)) in H.
+    apply some_pair_inj in H. destruct H as [<- _]. unfold map_pools. rewrite !lists_set_allocs. reflexivity.
+  - cbn [reg_step] in H. destruct (assoc_find key_eqb k (r_allocs st f)) as [[c ps]|]; inversion H; subst; reflexivity.
+  - cbn [reg_step] in H. inversion H; subst; reflexivity.
+Qed.
+
+Lemma linv_run v : forall ks st st' evs, LInv st -> reg_run_from v st ks = Some (st', evs) -> LInv st'.
+Proof.
+  induction ks as [|k r IH]; simpl; intros st st' evs F H.
+  - inversion H; subst; exact F.
+  - destruct (reg_step v st k) as [[st1 o]|] eqn:E; [|discriminate].
+    destruct (reg_run_from v st1 r) as [[st2 evs']|] eqn:R; [|discriminate].
+    inversion H; subst. eapply IH; [|eauto].
+    intros f pf l Hl. rewrite (lists_step _ _ _ _ _ f E) in Hl. eapply F; eauto.
+Qed.
+
+Lemma alloc_within_profile st f pf ov vrf s k o st' r :
+  RInv st -> LInv st -> reg_step Repaired st (RAlloc f pf ov vrf s (Some (k, o))) = Some (st', r) -> fst k = pf.
+Proof.
+  intros F L H. destruct (alloc_answer _ _ _ _ _ _ _ _ _ _ F H) as [_ [_ [[Ho Hk]|[l1 [l2 [E _]]]]]].
+  - subst k; reflexivity.
+  - unfold pools_of in E. destruct (assoc_find N.eqb pf (r_lists st f)) as [l|] eqn:A.
+    + eapply L; [exact A|]. rewrite E. apply in_or_app. right. left. reflexivity.
+    + destruct l1; discriminate.
+Qed.
+
+(* a registry call changes an allocator's lease map only by the ledger update of the pool call it makes *)
+Lemma on_pool_ledger v st f k mk st' o :
+  on_pool v st f k mk = Some (st', o) ->
+  exists ac ps ps' pc, assoc_find key_eqb k (r_allocs st f) = Some (ac, ps) /\ mk ac = Some pc /\
+    assoc_find key_eqb k (r_allocs st' f) = Some (ac, ps') /\ leases ps' = ledger_step (leases ps) (pc, o).
+Proof.
+  unfold on_pool. intros H.
+  destruct (assoc_find key_eqb k (r_allocs st f)) as [[ac ps]|] eqn:A; [|discriminate].
+  destruct (mk ac) as [pc|] eqn:M; [|discriminate].
+  destruct (pool_step v (acfg_pool ac) ps pc) as [[ps' o']|] eqn:C; [|discriminate].
+  inversion H; subst. exists ac, ps, ps', pc. repeat split; auto.
+  - rewrite allocs_set. assert (rfam_eqb f f = true) as R by (apply rfam_eqb_eq; reflexivity). rewrite R.
+    apply assoc_find_set_same. intros a. apply key_eqb_eq. reflexivity.
+  - eapply ledger_step_agrees; eauto.
+Qed.
+
+(* ---------------------------------------------------------------- configuration: gateway and excludes *)
+Lemma pool_geom_excl v lo hi excl c : pool_geom v lo hi excl = Some c -> p_excl c = excl.
+Proof.
+  unfold pool_geom. destruct (range_terminates v (unmap lo) (unmap hi)); [|discriminate].
+  destruct (fam_eqb (fst (unmap lo)) (fst (unmap hi))); intros H; inversion H; reflexivity.
+Qed.
+
+Lemma excluded_in c g : In g (p_excl c) -> assignable c (unmap g) = false.
+Proof.
+  intros H. unfold assignable. assert (is_excluded c (unmap g) = true) as E.
+  { unfold is_excluded. apply mem_addr_In. apply in_map. exact H. }
+  rewrite E. apply andb_false_r.
+Qed.
+
+Lemma expand_all_incl v : forall l ex e xs,
+  expand_all v l = Some ex -> In e l -> expand_excl v e = Some xs -> incl xs ex.
+Proof.
+  induction l as [|e0 r IH]; simpl; intros ex e xs H Hin He; [contradiction|].
+  destruct (expand_excl v e0) as [a|] eqn:E0; [|discriminate].
+  destruct (expand_all v r) as [b|] eqn:Er; [|discriminate]. inversion H; subst ex.
+  destruct Hin as [->|Hin].
+  - rewrite E0 in He. inversion He; subst. apply incl_appl, incl_refl.
+  - apply incl_appr. eapply IH; eauto.
+Qed.
+
+Lemma spec_geom_excl v f sp c :
+  spec_geom v f sp = Some (Some (APool c)) ->
+  exists ex, p_excl c = (match eff_gw f sp with SAddr g => [g] | _ => [] end) ++ ex /\
+             (match f with F4 => expand_all v (sp_excl sp) | _ => Some [] end) = Some ex.
+Proof.
+  unfold spec_geom. destruct (sp_net sp) as [[na bits]|]; [|discriminate].
+  destruct f; try (destruct (pd_new v _); discriminate).
+  - destruct (match sp_lo sp with SEmpty => _ | SJunk => _ | SAddr a => _ end) as [lo|]; [|discriminate].
+    destruct (match sp_hi sp with SEmpty => _ | SJunk => _ | SAddr a => _ end) as [hi|]; [|discriminate].
+    destruct (expand_all v (sp_excl sp)) as [ex|]; [|discriminate].
+    destruct (pool_geom v lo hi _) as [c'|] eqn:G; [|discriminate].
+    intros H; inversion H; subst c'. exists ex. split; [eapply pool_geom_excl; eauto | reflexivity].
+  - destruct (match sp_lo sp with SEmpty => _ | SJunk => _ | SAddr a => _ end) as [lo|]; [|discriminate].
+    destruct (match sp_hi sp with SEmpty => _ | SJunk => _ | SAddr a => _ end) as [hi|]; [|discriminate].
+    destruct (pool_geom v lo hi _) as [c'|] eqn:G; [|discriminate].
+    intros H; inversion H; subst c'. exists []. split; [eapply pool_geom_excl; eauto | reflexivity].
+Qed.
+
+(* the gateway (pool's, else the IPv4 profile's) is never assignable in the allocator built from the
+   configuration; neither is an address named by an exclude entry or lying in an exclude range *)
+Lemma spec_gateway_excluded v f sp c g :
+  spec_geom v f sp = Some (Some (APool c)) -> eff_gw f sp = SAddr g -> assignable c (unmap g) = false.
+Proof.
+  intros H E. destruct (spec_geom_excl _ _ _ _ H) as [ex [P _]]. rewrite E in P.
+  apply excluded_in. rewrite P. left. reflexivity.
+Qed.
+
+Lemma spec_exclude_single v sp c a :
+  spec_geom v F4 sp = Some (Some (APool c)) -> In (SAddr a, SEmpty) (sp_excl sp) -> assignable c (unmap a) = false.
+Proof.
+  intros H Hin. destruct (spec_geom_excl _ _ _ _ H) as [ex [P X]].
+  apply excluded_in. rewrite P. apply in_or_app. right.
+  eapply (expand_all_incl v _ _ _ [a] X Hin); [reflexivity | left; reflexivity].
+Qed.
+
+Lemma spec_exclude_range v sp c a b n :
+  spec_geom v F4 sp = Some (Some (APool c)) -> In (SAddr a, SAddr b) (sp_excl sp) ->
+  fst a = fst b -> snd a <= n <= snd b -> assignable c (unmap (fst a, n)) = false.
+Proof.
+  intros H Hin Ef Hn. destruct (spec_geom_excl _ _ _ _ H) as [ex [P X]].
+  assert (exists xs, expand_excl v (SAddr a, SAddr b) = Some xs) as [xs Hx].
+  { clear -X Hin. revert ex X. induction (sp_excl sp) as [|e r IH]; [contradiction|]. simpl. intros ex X.
+    destruct (expand_excl v e) as [xa|] eqn:E0; [|discriminate].
+    destruct (expand_all v r) as [xb|] eqn:Er; [|discriminate].
+    destruct Hin as [->|Hin]; [eauto | eapply IH; eauto]. }
+  apply excluded_in. rewrite P. apply in_or_app. right.
+  eapply (expand_all_incl v _ _ _ xs X Hin Hx).
+  simpl in Hx. destruct (range_terminates v a b); [|discriminate].
+  assert (fam_eqb (fst a) (fst b) = true) as Eb by (apply fam_eqb_eq; exact Ef). rewrite Eb in Hx.
+  inversion Hx; subst xs. apply in_map_iff. exists (N.to_nat (n - snd a)). split.
+  - f_equal. lia.
+  - apply in_seq. lia.
+Qed.
